@@ -9,7 +9,17 @@ TRUST = ("TLC explores the bounded model exhaustively; the code is bound by exec
          "Trusted: TLC, the abstraction alpha (Python scalar ==, <, isnan, isnat), the stated bounds.")
 
 FRAME_TECH = "TLA+ spec (Frame/FrameOps/GroupOps) + TLC exhaustive enumeration of frames x arguments + monitor-style trace validation of real DataFrame calls"
+SM_TEXT = ("FrameSM.tla is a state machine over frame handles and a heap of column buffers (aliasing = two columns holding one buffer id); "
+  "one Step operator gives the post-state of every public DataFrame operation, reusing the single-call modules for contents. FrameSMMC explores all "
+  "interleavings of transforming calls, shallow copies, in-place assignment (broadcast / wrong lengths), deletion, colnames, group_by and element "
+  "pokes to a small depth and checks WellFormed plus the action properties FreshResult, OperandsUntouched and PokeLocal. Seeded histories on real "
+  "frames record after every call each frame's columns, cells, the memory-sharing partition of all live columns, grouping and attribute/key "
+  "coherence, and are validated step by step by FrameSMTrace; pokes are really executed so an alias shows up as a change in another object. ")
 CHECKS = {
+ "C01": dict(engine="FrameSM", text=SM_TEXT + "C01 owns the clauses C01:* (rectangularity, broadcast rule, rejected length mismatch, stable column order, attribute/key coherence) and unexpected exceptions.",
+   design="§3 C01", technique="TLA+ state machine (FrameSM) model-checked by TLC + trace validation of recorded call histories"),
+ "C06": dict(engine="FrameSM", text=SM_TEXT + "C06 owns the clauses C06:* (operand changed, grouping changed, result shares memory with an operand, write visible through another object, group_by returns the receiver).",
+   design="§3 C06", technique="TLA+ state machine with buffer heap (FrameSM) model-checked by TLC + trace validation incl. real in-place writes"),
  "C17": dict(engine="LoDSM",
    text="LoDSM.tla is a state machine over an item heap and list objects with share/deriv parent sets, must/may/must-not obsolete flags and a warned bit; one Step operator gives the post-state of every public method (reusing LoDOps/LoDJoin for contents). LoDSMMC explores it exhaustively (all interleavings of unary methods, editors, deepcopy, joins, + and extend on up to 3-4 lists) checking SharingConfined (dicts never shared outside a share-connected component, i.e. deep copies are isolated forever), non-modification and flag action properties. Seeded histories (arbitrary derivation trees) run on the real class are validated step by step by LoDSMTrace: every list's item identities, every item's contents, every _obsolete flag and the number of warning lines after every call.",
    design="§3 C17", technique="TLA+ state machine (LoDSM) model-checked by TLC + trace validation of recorded histories (monitor reusing the spec's Step)"),
@@ -41,6 +51,7 @@ CHECKS = {
    design="§3 C11", technique="TLA+ spec (VectorOps) + TLC exhaustive enumeration + monitor-style trace validation of real calls"),
 }
 ENGINES = [
+ dict(name="FrameSM", path="spec/FrameSM.tla", serves_properties=["C01", "C06"], kind_free_text="TLA+ session machine with buffer heap + FrameSMMC (exhaustive, action properties) + FrameSMTrace (history validation)"),
  dict(name="LoDSM", path="spec/LoDSM.tla", serves_properties=["C17"], kind_free_text="TLA+ session machine + LoDSMMC (exhaustive) + LoDSMTrace (history validation)"),
  dict(name="LoDOps", path="spec/LoDOps.tla", serves_properties=["C15"], kind_free_text="TLA+ LoDOps reference semantics + LoDOpsMC + LoDOpsTrace monitor (TLC)"),
  dict(name="LoDJoin", path="spec/LoDJoin.tla", serves_properties=["C16"], kind_free_text="TLA+ LoDJoin predicates + LoDJoinMC + LoDJoinTrace monitor (TLC)"),
